@@ -262,6 +262,17 @@ func applyC06(row jsonline.Row, op c06op) (string, string) {
 		s := fmt.Sprintf("imap %d %s", len(order), strings.Join(parts, " "))
 		c06LastOpText = s
 		return strings.TrimSpace(s), errClass(err)
+	case "share":
+		// the Value held under one key is stored under another key as well: one cell, two holders. For the
+		// row (and for the model, whose cells are values) this is a SetValue of what the first key holds.
+		c, ok := row.GetValue(op.key)
+		if !ok {
+			c = jsonline.NewValueAuto(nil)
+		}
+		s := "setv K:" + hx([]byte(op.json)) + " " + valStr(c)
+		c06LastOpText = s
+		row.SetValue(op.json, c)
+		return s, "-"
 	case "um":
 		err := row.UnmarshalJSON([]byte(op.json))
 		c := errClass(err)
@@ -375,8 +386,66 @@ func observeC06(row jsonline.Row, errc string) string {
 			}
 			sb.WriteString(hx([]byte(k)))
 		}
+		// the member names at every depth of the serialisation, in order
+		sb.WriteString(" | js=" + jsonSkeleton(b))
 	}
 	return sb.String()
+}
+
+// jsonSkeleton: the member names of a JSON text at every depth, in text order: {6b{…},6b2}, […,…], nothing for a
+// scalar ("UNREADABLE" for a text the decoder refuses).
+func jsonSkeleton(b []byte) string {
+	dec := json.NewDecoder(bytes.NewReader(b))
+	dec.UseNumber()
+	var val func() (string, bool)
+	val = func() (string, bool) {
+		t, err := dec.Token()
+		if err != nil {
+			return "", false
+		}
+		d, isDelim := t.(json.Delim)
+		if !isDelim {
+			return "", true
+		}
+		var parts []string
+		switch d {
+		case '{':
+			for dec.More() {
+				kt, err := dec.Token()
+				if err != nil {
+					return "", false
+				}
+				k, _ := kt.(string)
+				v, ok := val()
+				if !ok {
+					return "", false
+				}
+				parts = append(parts, hx([]byte(k))+v)
+			}
+			if _, err := dec.Token(); err != nil {
+				return "", false
+			}
+			return "{" + strings.Join(parts, ",") + "}", true
+		case '[':
+			for dec.More() {
+				v, ok := val()
+				if !ok {
+					return "", false
+				}
+				parts = append(parts, v)
+			}
+			if _, err := dec.Token(); err != nil {
+				return "", false
+			}
+			return "[" + strings.Join(parts, ",") + "]", true
+		}
+		return "", false
+	}
+	s, ok := val()
+	if !ok {
+		return "UNREADABLE"
+	}
+	return s
 }
 
 func runC06History(cw *caseWriter, ops []c06op) { runC06HistoryFrom(cw, nil, ops) }
@@ -529,6 +598,35 @@ func genC06(cw *caseWriter, seed uint64, tier string) {
 			}
 			runC06HistoryFrom(cw, ds, ops)
 		}
+	}
+	// one Value under two keys (the cell a key holds is stored under another key as well), then stores — Set,
+	// SetAtIndex, SetValue, SetValueAtIndex, which REPLACE the cell a key holds — through either holder: the
+	// other key keeps what it held ("lookups return the most recently stored value" of THAT key). Imports are
+	// left out after the share: they convert into the cell in place, which two holders of one cell both see
+	// by construction of the API (DESIGN §10).
+	for i := 0; i < 60; i++ {
+		var ops []c06op
+		for j := r.intn(4); j > 0; j-- {
+			ops = append(ops, c06randomOp(r))
+		}
+		k1, k2 := pick(r, c06Alphabet[:4]), pick(r, c06Alphabet[3:])
+		ops = append(ops, c06op{kind: pick(r, []string{"set", "setv"}), key: k1, val: pick(r, vals), cell: pick(r, c06cells())})
+		ops = append(ops, c06op{kind: "share", key: k1, json: k2})
+		for j := 2 + r.intn(5); j > 0; j-- {
+			switch r.intn(5) {
+			case 0:
+				ops = append(ops, c06op{kind: "set", key: k1, val: pick(r, vals)})
+			case 1:
+				ops = append(ops, c06op{kind: "set", key: k2, val: pick(r, vals)})
+			case 2:
+				ops = append(ops, c06op{kind: "setat", idx: r.intn(5) - 1, val: pick(r, vals)})
+			case 3:
+				ops = append(ops, c06op{kind: "setv", key: pick(r, []string{k1, k2}), cell: pick(r, c06cells())})
+			default:
+				ops = append(ops, c06op{kind: "setvat", idx: r.intn(5) - 1, cell: pick(r, c06cells())})
+			}
+		}
+		runC06History(cw, ops)
 	}
 	// rows that grow past the sizes where a container might change its representation (8, 16, 32, 64 keys):
 	// keys enter through every mutator, then existing keys are set, imported and addressed by position again
